@@ -453,9 +453,18 @@ type hostile struct {
 	status int
 	body   string
 	ctype  string
+	delay  time.Duration // the peer is slow: it answers after this long, or when the client has gone
 }
 
 func (h *hostile) ServeHTTP(w http.ResponseWriter, r *http.Request) {
+	if h.delay > 0 {
+		t := time.NewTimer(h.delay)
+		select {
+		case <-t.C:
+		case <-r.Context().Done():
+		}
+		t.Stop()
+	}
 	if h.ctype != "" {
 		w.Header().Set("Content-Type", h.ctype)
 	}
@@ -541,6 +550,10 @@ func (c *c09) clientSide(base int, s *session) {
 			_, err = ts.TokenCtx(ctx)
 			return err
 		}},
+		{"rp.DeviceAccessToken-polling-loop", func() error {
+			_, err := rp.DeviceAccessToken(ctx, "device-code", time.Second, party)
+			return err
+		}},
 		{"oauth2 via rp (auto-detect)", func() error {
 			cfg := *party.OAuthConfig()
 			cfg.Endpoint.AuthStyle = oauth2.AuthStyleAutoDetect
@@ -576,6 +589,46 @@ func (c *c09) clientSide(base int, s *session) {
 		}
 	}
 	c.o.ProbeN("client-cases", len(helpers)*len(answers))
+	// a slow peer: it answers later than the helper (or its caller) is willing to wait, or just late. Whatever a
+	// helper does about that - retry, give up, report - it returns; it does not panic.
+	slow := []struct {
+		name     string
+		answer   hostile
+		patience time.Duration
+	}{
+		{"late pending answer, patient caller", hostile{400, `{"error":"authorization_pending"}`, "application/json", 3 * time.Second}, 40 * time.Second},
+		{"answer after the caller's deadline", hostile{200, goodDisc, "application/json", 30 * time.Second}, 5 * time.Second},
+		{"late slow_down answer, patient caller", hostile{400, `{"error":"slow_down"}`, "application/json", 2 * time.Second}, 25 * time.Second},
+	}
+	for _, hp := range helpers {
+		for si, sl := range slow {
+			id++
+			if c.o.Spec.KeepSet && !containsInt(c.o.Spec.Keep, id) {
+				continue
+			}
+			*h = sl.answer
+			c.step = id
+			c.o.StepIDs = append(c.o.StepIDs, id)
+			c.o.Steps++
+			c.cases++
+			var cancel context.CancelFunc
+			ctx, cancel = context.WithTimeout(context.Background(), sl.patience)
+			func() {
+				defer func() {
+					if r := recover(); r != nil {
+						c.o.Violate("C09", "panic", "client/"+hp.name+"/slow-peer", id, "%s panicked with a slow provider (%s): %v", hp.name, slow[si].name, r)
+					}
+				}()
+				if err := hp.call(); err != nil {
+					c.o.Probe("client-errors-returned")
+				}
+			}()
+			cancel()
+			c.o.Probe("slow-peer-cases")
+		}
+	}
+	ctx = context.Background()
+	*h = hostile{status: 200, body: goodDisc, ctype: "application/json"}
 	c.decoders(id)
 }
 
@@ -739,15 +792,15 @@ func RunC09(t *testing.T, spec kernel.Spec) *kernel.Outcome {
 func hostileAnswers(goodDisc, issuer, idToken string) []hostile {
 	var answers []hostile
 	for _, pc := range payloadCatalogue {
-		answers = append(answers, hostile{200, pc.doc, "application/json"}, hostile{400, pc.doc, "application/json"})
+		answers = append(answers, hostile{200, pc.doc, "application/json", 0}, hostile{400, pc.doc, "application/json", 0})
 	}
-	answers = append(answers, hostile{200, "", ""}, hostile{204, "", ""}, hostile{500, "boom", "text/plain"}, hostile{302, "", ""}, hostile{401, `{"error":"invalid_client"}`, "application/json"},
-		hostile{503, "null", "application/json"}, hostile{500, " null ", "application/json"},
-		hostile{200, goodDisc[:len(goodDisc)/2], "application/json"}, hostile{200, strings.Replace(goodDisc, issuer, "https://other.sim", 1), "application/json"},
-		hostile{200, `{"access_token":"a","token_type":"Bearer","id_token":"` + idToken + `"}`, "application/json"},
-		hostile{200, `{"access_token":"a","token_type":"Bearer","id_token":"a.b.c","expires_in":-5}`, "application/json"},
-		hostile{200, `{"access_token":"a","token_type":"Bearer","id_token":"` + b64(`{"alg":"RS256"}`) + "." + b64(`null`) + ".c" + `"}`, "application/json"},
-		hostile{200, `{"sub":"someone-else"}`, "application/json"}, hostile{200, strings.Repeat("[", 10000), "application/json"})
+	answers = append(answers, hostile{200, "", "", 0}, hostile{204, "", "", 0}, hostile{500, "boom", "text/plain", 0}, hostile{302, "", "", 0}, hostile{401, `{"error":"invalid_client"}`, "application/json", 0},
+		hostile{503, "null", "application/json", 0}, hostile{500, " null ", "application/json", 0},
+		hostile{200, goodDisc[:len(goodDisc)/2], "application/json", 0}, hostile{200, strings.Replace(goodDisc, issuer, "https://other.sim", 1), "application/json", 0},
+		hostile{200, `{"access_token":"a","token_type":"Bearer","id_token":"` + idToken + `"}`, "application/json", 0},
+		hostile{200, `{"access_token":"a","token_type":"Bearer","id_token":"a.b.c","expires_in":-5}`, "application/json", 0},
+		hostile{200, `{"access_token":"a","token_type":"Bearer","id_token":"` + b64(`{"alg":"RS256"}`) + "." + b64(`null`) + ".c" + `"}`, "application/json", 0},
+		hostile{200, `{"sub":"someone-else"}`, "application/json", 0}, hostile{200, strings.Repeat("[", 10000), "application/json", 0})
 	return answers
 }
 
